@@ -228,36 +228,38 @@ Example C17_static_premises_nonvacuous :
   end.
 Proof. vm_compute. auto. Qed.
 
-(** (c) The DROP TABLE arm, for the plan of one DropTable change -- through C01's machinery
-    (agent sqlite's Converge*.v): the reverse of DROP TABLE t is exactly the statement group the
-    planner emits to ADD the inspected table, so the down run is C01's "add table" step on the state
-    the up run left.  For every state [d] outside a transaction with a duplicate-free namespace and
-    every table [c] of it whose inspection survives CREATE + inspect without a difference
-    ([desired_ok], C01's decidable precondition [desired_ok_b]; it is what excludes inline UNIQUE
-    constraints, whose automatic index the planner renames): the plan
-    [PRAGMA foreign_keys = off; DROP TABLE t; PRAGMA foreign_keys = on] is flagged reversible, and
-    when it executes, its down statements [CREATE TABLE t ..; CREATE INDEX ..] execute and the
+(** (c) The DROP TABLE arm, for the plans that drop tables (any number, any order) -- through C01's
+    machinery (agent sqlite's Converge*.v): the reverse of DROP TABLE t is exactly the statement
+    group the planner emits to ADD the inspected table, so the down run is a sequence of C01's
+    "add table" steps on the state the up run left.  For every state [d] outside a transaction with a
+    duplicate-free namespace and every list [cl] of distinct tables of it whose inspections survive
+    CREATE + inspect without a difference ([desired_ok], C01's decidable precondition
+    [desired_ok_b]; it is what excludes inline UNIQUE constraints, whose automatic index the
+    planner renames): the plan
+    [PRAGMA foreign_keys = off; DROP TABLE t1; ..; DROP TABLE tk; PRAGMA foreign_keys = on] is
+    flagged reversible, and when it executes, its down statements
+    [CREATE TABLE tk ..; CREATE INDEX ..; ...; CREATE TABLE t1 ..; CREATE INDEX ..] execute and the
     differ finds no difference between the inspection of the result and the inspection of the
-    start ([synced]: the table is back at the end of the catalogue, without its rows).  [SELF]:
-    the untouched tables inspect to something the differ finds equal to itself (C02_self_empty on
-    well-formed tables).
-    Missing: plans mixing DropTable with other changes or dropping several tables (the oracle
-    executes them: 340 multi-statement reverses in the quick run). *)
-Theorem C17_reversible_sound_droptable_partial :
-  forall (nm : str) (to : xschema) (n : str) (c : ctable) (d d1 : db) (p : plan),
+    start ([synced]; the tables are back at the end of the catalogue, last dropped first, without
+    their rows).  The untouched tables have to inspect to something the differ finds equal to
+    itself (C02_self_empty on well-formed tables).
+    Missing: plans mixing DropTable with other changes (the real-engine oracle executes them: 340
+    multi-statement reverses in the quick run). *)
+Theorem C17_reversible_sound_droptables_partial :
+  forall (nm : str) (to : xschema) (cl : list ctable) (d d1 : db) (p : plan),
   db_tx d = false -> NoDup (all_names (db_tables d)) ->
-  find_ct n (db_tables d) = Some c ->
-  desired_ok (inspect_table c) ->
-  (forall c0, In c0 (db_tables d) -> c0 <> c ->
+  NoDup (map ct_name cl) ->
+  (forall c, In c cl -> find_ct (ct_name c) (db_tables d) = Some c /\ desired_ok (inspect_table c)) ->
+  (forall c0, In c0 (db_tables d) -> ~ In c0 cl ->
      tdiff (x_t (inspect_table c0)) (x_t (inspect_table c0)) = Some []) ->
-  PlanChanges (inspect d) to [DropTable n] = Some p ->
+  PlanChanges (inspect d) to (map (fun c => DropTable (ct_name c)) cl) = Some p ->
   exec_all d (up_stmts (p_changes p)) = EngineModel.Ok d1 ->
   p_reversible p = true /\
   exists d2, exec_all d1 (down_stmts (p_changes p)) = EngineModel.Ok d2 /\ synced nm d2 (inspect d).
-Proof. exact drop_table_sound. Qed.
-Print Assumptions C17_reversible_sound_droptable_partial.
+Proof. exact drop_tables_sound. Qed.
+Print Assumptions C17_reversible_sound_droptables_partial.
 
-(** non-vacuity: DROP TABLE t (with its unique index ix) next to an untouched table u *)
+(** non-vacuity: DROP TABLE t (with its unique index ix) and DROP TABLE u *)
 Definition ex_d2 : db :=
   mkDB [mkCT (mkX (mkTable [116]%N false false [ex_col [97]%N; ex_col [98]%N] None [ex_ix] [] []) []) [] [];
         mkCT (mkX (mkTable [117]%N false false [ex_col [97]%N] None [] [] []) []) [] []]
@@ -267,12 +269,13 @@ Example C17_droptable_nonvacuous :
   | c :: u :: _ =>
       desired_ok_b (inspect_table c) = true /\
       tdiff (x_t (inspect_table u)) (x_t (inspect_table u)) = Some [] /\
-      match PlanChanges (inspect ex_d2) [] [DropTable [116]%N] with
+      desired_ok_b (inspect_table u) = true /\
+      match PlanChanges (inspect ex_d2) [] [DropTable [116]%N; DropTable [117]%N] with
       | Some p =>
-          p_reversible p = true /\ length (p_changes p) = 3%nat /\
+          p_reversible p = true /\ length (p_changes p) = 4%nat /\
           match exec_all ex_d2 (up_stmts (p_changes p)) with
           | EngineModel.Ok d1 =>
-              length (db_tables d1) = 1%nat /\
+              length (db_tables d1) = 0%nat /\
               match exec_all d1 (down_stmts (p_changes p)) with
               | EngineModel.Ok d2 =>
                   length (db_tables d2) = 2%nat /\
